@@ -186,6 +186,55 @@ theorem C06_collect_respects_marks (ops : List Op) (h : WellFormed ops) (marks o
     apply hsw e he'
     simpa [swept, hroot] using hm
 
+/-- **C06, an explicit `del` finalises at once, together with what the object owns.**  In any state reached by a
+    well-formed history with the collector running, `del`/`del_root` of a registered object `b` leaves `b` — and every
+    registered object `x` that `b`'s destructor deletes (Box: its pointee), and so on down the chain — with exactly one
+    `fin` followed by one `free` in the ledger, and unregistered. -/
+theorem C06_del_finalises_now (ops : List Op) (h : WellFormed ops) (b : Addr) (k : Kind) (hk : k ≠ .raw)
+    (hrun : (final ops).running = true) (hb : b ∈ (final ops).regAddrs) :
+    Once b (final (ops ++ [Op.del b k])).log ∧ b ∉ (final (ops ++ [Op.del b k])).regAddrs ∧
+    ∀ x ∈ (final ops).ownsOf b, x ∈ (final ops).regAddrs →
+      Once x (final (ops ++ [Op.del b k])).log ∧ x ∉ (final (ops ++ [Op.del b k])).regAddrs := by
+  have hI := inv_final ops h
+  have hs' : final (ops ++ [Op.del b k]) =
+      gcRem (finalise (fuelFor (final ops)) Cfg.current) Cfg.current (final ops) b := by
+    unfold final; rw [run_append]
+    cases k with
+    | raw => exact absurd rfl hk
+    | std => rfl
+    | root => rfl
+  rw [hs']
+  exact gcRem_registered hI b hrun hb
+
+/-- **C06, `del_raw`.**  `del_raw` of a raw object the program has not deleted yet finalises and releases it at once,
+    exactly once, whatever the state of the collector (running or stopped). -/
+theorem C06_del_raw_finalises_now (ops : List Op) (h : WellFormed ops) (a : Addr) (ha : a ∈ (ghost ops).rawLive) :
+    Once a (final (ops ++ [Op.del a .raw])).log := by
+  have hw : WellFormed (ops ++ [Op.del a .raw]) := by
+    unfold WellFormed
+    rw [wf_append]
+    exact ⟨h, ha, trivial⟩
+  have hI := inv_final _ hw
+  have hI0 := inv_final ops h
+  have hgh : ghost (ops ++ [Op.del a .raw]) = gstep (ghost ops) (final ops) (Op.del a .raw) := by
+    unfold ghost final; rw [grun_append]; rfl
+  have hs' : final (ops ++ [Op.del a .raw]) = finalise (fuelFor (final ops)) Cfg.current (final ops) a := by
+    unfold final; rw [run_append]; rfl
+  have hal : a ∈ (ghost (ops ++ [Op.del a .raw])).allocd := by
+    rw [hgh]; exact (hI0.loose a (Or.inl ha)).1
+  have hnr : a ∉ (ghost (ops ++ [Op.del a .raw])).rawLive := by
+    rw [hgh]; simp [gstep]
+  have hnl : a ∉ (ghost (ops ++ [Op.del a .raw])).lost := by
+    rw [hgh]; exact hI0.sep a ha
+  have hreg : a ∉ (final (ops ++ [Op.del a .raw])).regAddrs := by
+    obtain ⟨D, E, he, _⟩ := finalise_spec (fuelFor (final ops)) (final ops) a hI0.disj (mu_lt_fuelFor _)
+    rw [hs']
+    unfold St.regAddrs
+    rw [he.reg]
+    intro hc
+    exact (hI0.loose a (Or.inl ha)).2.1 (mem_regWithout_addrs.1 hc).1
+  exact hI.done a hal hreg hnr hnl
+
 /-! ### non-vacuity: concrete histories that meet the hypotheses -/
 
 /-- Box → probe, the owner swept *before* what it owns (order `[2, 1]`), plus a root and a raw object deleted by the
@@ -197,6 +246,13 @@ example :
       (final (ops ++ [Op.teardown []])).log =
         [.fin 2, .fin 1, .free 1, .free 2, .fin 3, .free 3, .fin 4, .free 4] := by
   refine ⟨?_, by decide, by decide, by decide, by decide⟩
+  decide
+
+/-- `C06_del_finalises_now` is not vacuous: running, owner 2 registered, it owns the registered object 1 -/
+example :
+    let ops : List Op := [.new 1 .std [] [1] [], .new 2 .std [1] [1, 2] []]
+    WellFormed ops ∧ (final ops).running = true ∧ 2 ∈ (final ops).regAddrs ∧ 1 ∈ (final ops).ownsOf 2 ∧
+      1 ∈ (final ops).regAddrs ∧ (final (ops ++ [Op.del 2 .std])).log = [.fin 2, .fin 1, .free 1, .free 2] := by
   decide
 
 /-- the same pair, owned object swept *before* its owner (order `[1, 2]`): the owner's `del` finds nothing -/
